@@ -392,12 +392,21 @@ func init() {
 	}
 }
 
+// asciiClean: the string is over the alphabet the model knows — ASCII plus the four non-ASCII
+// characters ſ (U+017F), K (U+212A, Kelvin sign), É, é — and, if asked, has no braces.
 func asciiClean(s string, noBraces bool) bool {
-	for i := 0; i < len(s); i++ {
-		if s[i] >= 0x80 {
-			return false
-		}
-		if noBraces && (s[i] == '{' || s[i] == '}') {
+	for i := 0; i < len(s); {
+		switch {
+		case s[i] < 0x80:
+			if noBraces && (s[i] == '{' || s[i] == '}') {
+				return false
+			}
+			i++
+		case strings.HasPrefix(s[i:], "\u017f"), strings.HasPrefix(s[i:], "\u00c9"), strings.HasPrefix(s[i:], "\u00e9"):
+			i += 2
+		case strings.HasPrefix(s[i:], "\u212a"):
+			i += 3
+		default:
 			return false
 		}
 	}
@@ -587,7 +596,11 @@ func choiceOf(cfg *tls.Config, err error) string {
 
 // ---------------------------------------------------------------- small reference helpers (oracle side)
 
+// asciiLower is strings.ToLower on the model's alphabet, written from the Unicode tables rather
+// than by calling it: A–Z ↦ a–z, K (Kelvin) ↦ k, É ↦ é; ſ (long s) is already lower case.
+// Two names select the same TLS connection policies iff they are equal after this (foldEq).
 func asciiLower(s string) string {
+	s = strings.NewReplacer("\u212a", "k", "\u00c9", "\u00e9").Replace(s)
 	b := []byte(s)
 	for i, c := range b {
 		if c >= 'A' && c <= 'Z' {
@@ -596,6 +609,23 @@ func asciiLower(s string) string {
 	}
 	return string(b)
 }
+
+func isASCII(s string) bool {
+	for i := 0; i < len(s); i++ {
+		if s[i] >= 0x80 {
+			return false
+		}
+	}
+	return true
+}
+
+// unicodeFoldOnly: the known finding's signature — the SNI is not ASCII, differs from name after
+// lower-casing (so it does not select name's connection policies), yet strings.EqualFold(sni, name).
+func unicodeFoldOnly(sni, name string) bool {
+	return !isASCII(sni) && !foldEq(sni, name) && strings.EqualFold(sni, name)
+}
+
+const clsUnicodeFold = "unicode-fold-sni-passes-strict-sni-host"
 
 func foldEq(a, b string) bool { return asciiLower(a) == asciiLower(b) }
 
@@ -977,10 +1007,18 @@ func (p *prop) runEnf(f []string) core.Outcome {
 			} else if site != "*" {
 				k, _ := strconv.Atoi(site)
 				if k < len(sites) && !foldEq(sites[k], rq.sni) {
-					fail("strict-sni-host-bypass", fmt.Sprintf("strict SNI-Host in effect, connection SNI %q, Host %q: request was routed to the handler of site %q", rq.sni, rq.host, sites[k]))
+					class := "strict-sni-host-bypass"
+					if unicodeFoldOnly(rq.sni, sites[k]) {
+						class = clsUnicodeFold
+					}
+					fail(class, fmt.Sprintf("strict SNI-Host in effect, connection SNI %q, Host %q: request was routed to the handler of site %q, whose name does not select the same connection policies as that SNI", rq.sni, rq.host, sites[k]))
 				}
 			} else if m := wellFormedHost.FindStringSubmatch(rq.host); m != nil && !foldEq(m[1], rq.sni) {
-				fail("strict-sni-host-mismatch-reaches-handler", fmt.Sprintf("strict SNI-Host in effect, connection SNI %q, Host %q names %q: request reached the catch-all handler", rq.sni, rq.host, m[1]))
+				class := "strict-sni-host-mismatch-reaches-handler"
+				if unicodeFoldOnly(rq.sni, m[1]) {
+					class = clsUnicodeFold
+				}
+				fail(class, fmt.Sprintf("strict SNI-Host in effect, connection SNI %q, Host %q names %q: request reached the catch-all handler", rq.sni, rq.host, m[1]))
 			}
 		}
 	}
@@ -1151,7 +1189,11 @@ func (p *prop) runE2E(f []string) core.Outcome {
 	// ---- the property, end to end: the client has no certificate, so the handler of the
 	// client-auth site must never be entered
 	if res == "in:0" {
-		fail("client-auth-site-reached-without-certificate", fmt.Sprintf("connection SNI %q (policy %s, no client certificate), Host %q: request reached the handler of %s", sni, hs, host, e2eSites[0]))
+		class := "client-auth-site-reached-without-certificate"
+		if unicodeFoldOnly(sni, e2eSites[0]) {
+			class = clsUnicodeFold
+		}
+		fail(class, fmt.Sprintf("connection SNI %q (policy %s, no client certificate), Host %q: request reached the handler of %s", sni, hs, host, e2eSites[0]))
 	}
 	if !obsStrict {
 		fail("strict-sni-host-not-enabled", fmt.Sprintf("e2e server %d (client-auth shape %c) has a client-auth policy and no explicit strict_sni_host, but does not enforce strict SNI-Host", k, "CVl"[k]))
